@@ -172,10 +172,16 @@ def sf_select_idx(I, fr, M, m):
 
 
 def sf_av_valid(I, fr, s):
+    if isinstance(s, str):  # A-AV on a literal: ask the real library
+        from awesomeversion import AwesomeVersion
+        return AwesomeVersion(s).valid
     return Sym(L.av_valid(sterm(I, s)), "bool")
 
 
 def sf_av_section(I, fr, s, i):
+    if isinstance(s, str) and isinstance(i, int):
+        from awesomeversion import AwesomeVersion
+        return AwesomeVersion(s).section(i)
     return Sym(L.av_section(sterm(I, s), iterm(I, i)), "int")
 
 
